@@ -2,7 +2,8 @@
    `Utf8Position::from`, `read_char_from_bytes`, and the validation `std::str::from_utf8` performs on
    the bytes it collected) and the THEOREM that it reads back every Unicode scalar value from its
    UTF-8 encoding — all 1,112,064 of them, by a sweep inside the kernel — consuming exactly the
-   bytes of that character.  So a script that is valid UTF-8 never reaches the `expect("uh oh")`. *)
+   bytes of that character.  So a script that is valid UTF-8 is read as its characters.  Bytes that are NOT UTF-8 are read too
+   (second model below, [read_char_lossy]: U+FFFD in their place, nothing swallowed, always progress). *)
 From Coq Require Import List NArith Bool Lia.
 Import ListNotations.
 Open Scope N_scope.
@@ -110,6 +111,68 @@ Fixpoint decode_all (fuel : nat) (bs : list N) : option (list N) :=
 Definition decode (bs : list N) : option (list N) := decode_all (S (length bs)) bs.
 
 (* ------------------------------------------------------------------ *)
+(** * MODEL: the reader as the debugger uses it (`Stdin::read_char`)
+
+    Bytes that are not UTF-8 do not stop the debugger: where [read_char] says [RcErr] the reader
+    hands on U+FFFD (the replacement character) instead.  The byte that showed the sequence to be
+    broken - one that is not a continuation byte where one was due - is NOT swallowed: it is kept
+    (`Stdin::pending`) and read again as the start of the next character, so a line end or a `;`
+    behind a truncated character still ends the line. *)
+
+Definition replacement : N := 65533.
+
+(** The continuation bytes, or what is left from the first byte that is not one. *)
+Fixpoint take_cont_l (n : nat) (bs : list N) : (list N * list N) + list N :=
+  match n with
+  | O => inl ([], bs)
+  | S n' =>
+      match bs with
+      | [] => inr []
+      | b :: r => if is_cont b then
+                    match take_cont_l n' r with inl (got, rest) => inl (b :: got, rest) | inr rest => inr rest end
+                  else inr (b :: r)
+      end
+  end.
+
+(** How many continuation bytes the first byte announces ([Utf8Position::len] - 1). *)
+Definition cont_due (a : N) : option nat :=
+  match upos_of a with
+  | Begin4 => Some 3%nat | Begin3 => Some 2%nat | Begin2 => Some 1%nat | Begin1 => Some 0%nat
+  | Continuation => None
+  end.
+
+Definition read_char_lossy (bs : list N) : option (N * list N) :=
+  match bs with
+  | [] => None
+  | a :: r =>
+      match cont_due a with
+      | None => Some (replacement, r)
+      | Some n =>
+          match take_cont_l n r with
+          | inr rest => Some (replacement, rest)
+          | inl (got, rest) =>
+              match from_utf8_1 (a :: got) with
+              | Some c => Some (c, rest)
+              | None => Some (replacement, rest)
+              end
+          end
+      end
+  end.
+
+(** A whole text.  The fuel never runs out when it exceeds the number of bytes ([decode_lossy_fuel]). *)
+Fixpoint decode_lossy_all (fuel : nat) (bs : list N) : list N :=
+  match fuel with
+  | O => []
+  | S f =>
+      match read_char_lossy bs with
+      | None => []
+      | Some (c, rest) => c :: decode_lossy_all f rest
+      end
+  end.
+
+Definition decode_lossy (bs : list N) : list N := decode_lossy_all (S (length bs)) bs.
+
+(* ------------------------------------------------------------------ *)
 (** * THEOREM: every scalar value is read back *)
 
 Definition check (c : N) : bool :=
@@ -198,9 +261,132 @@ Proof.
   pose proof (encode_all_length cs). lia.
 Qed.
 
+(* ------------------------------------------------------------------ *)
+(** * THEOREMS about the lossy reader *)
+
+Lemma take_cont_l_inl : forall n bs got rest, take_cont_l n bs = inl (got, rest) -> take_cont n bs = Some (got, rest).
+Proof.
+  induction n as [|n IH]; intros bs got rest H; cbn [take_cont_l take_cont] in *.
+  - injection H as <- <-. reflexivity.
+  - destruct bs as [|b r]; [discriminate|]. destruct (is_cont b); [|discriminate].
+    destruct (take_cont_l n r) as [[g rs]|rs] eqn:E; [|discriminate]. injection H as <- <-.
+    rewrite (IH r g rs E). reflexivity.
+Qed.
+
+Lemma take_cont_l_of : forall n bs got rest, take_cont n bs = Some (got, rest) -> take_cont_l n bs = inl (got, rest).
+Proof.
+  induction n as [|n IH]; intros bs got rest H; cbn [take_cont_l take_cont] in *.
+  - injection H as <- <-. reflexivity.
+  - destruct bs as [|b r]; [discriminate|]. destruct (is_cont b); [|discriminate].
+    destruct (take_cont n r) as [[g rs]|] eqn:E; [|discriminate]. injection H as <- <-.
+    rewrite (IH r g rs E). reflexivity.
+Qed.
+
+(** Where the strict reader reads a character, the lossy one reads the same character and leaves the same rest. *)
+Lemma read_char_lossy_char bs c rest : read_char bs = RcChar c rest -> read_char_lossy bs = Some (c, rest).
+Proof.
+  unfold read_char, read_char_lossy, cont_due. destruct bs as [|a r]; [discriminate|].
+  destruct (upos_of a); try discriminate;
+    (destruct (take_cont _ r) as [[got rs]|] eqn:E; [|discriminate];
+     rewrite (take_cont_l_of _ _ _ _ E);
+     destruct (from_utf8_1 (a :: got)); [|discriminate];
+     intros H; injection H as <- <-; reflexivity).
+Qed.
+
+Lemma read_char_lossy_eof bs : read_char_lossy bs = None <-> bs = [].
+Proof.
+  split; [|intros ->; reflexivity]. unfold read_char_lossy, cont_due. destruct bs as [|a r]; [reflexivity|].
+  destruct (upos_of a); try discriminate;
+    (destruct (take_cont_l _ r) as [[got rs]|rs]; [destruct (from_utf8_1 (a :: got))|]; discriminate).
+Qed.
+
+Lemma take_cont_l_length : forall n bs,
+  match take_cont_l n bs with
+  | inl (_, rest) => (length rest <= length bs)%nat
+  | inr rest => (length rest <= length bs)%nat
+  end.
+Proof.
+  induction n as [|n IH]; intros bs; cbn [take_cont_l]; [lia|].
+  destruct bs as [|b r]; [cbn; lia|]. destruct (is_cont b); [|lia].
+  specialize (IH r). destruct (take_cont_l n r) as [[g rs]|rs]; cbn [length]; lia.
+Qed.
+
+(** Every call takes at least one byte: the reader always makes progress. *)
+Lemma read_char_lossy_progress bs c rest : read_char_lossy bs = Some (c, rest) -> (length rest < length bs)%nat.
+Proof.
+  unfold read_char_lossy, cont_due. destruct bs as [|a r]; [discriminate|]. cbn [length].
+  destruct (upos_of a);
+    try (match goal with |- context [take_cont_l ?n r] => pose proof (take_cont_l_length n r) as L;
+           destruct (take_cont_l n r) as [[got rs]|rs] end;
+         [destruct (from_utf8_1 (a :: got))|]; intros H; injection H as _ <-; lia).
+  intros H; injection H as _ <-; lia.
+Qed.
+
+(** The fuel is never what ends the decoding: any two amounts above the number of bytes give the same text. *)
+Lemma decode_lossy_fuel : forall f1 f2 bs, (length bs < f1)%nat -> (length bs < f2)%nat ->
+  decode_lossy_all f1 bs = decode_lossy_all f2 bs.
+Proof.
+  induction f1 as [|f1 IH]; intros f2 bs H1 H2; [lia|]. destruct f2 as [|f2]; [lia|].
+  cbn [decode_lossy_all]. destruct (read_char_lossy bs) as [[c rest]|] eqn:E; [|reflexivity].
+  apply read_char_lossy_progress in E. f_equal. apply IH; lia.
+Qed.
+
+(** The text is consumed to its end: unfolding equation without fuel. *)
+Theorem decode_lossy_step bs :
+  decode_lossy bs = match read_char_lossy bs with None => [] | Some (c, rest) => c :: decode_lossy rest end.
+Proof.
+  unfold decode_lossy at 1. cbn [decode_lossy_all]. destruct (read_char_lossy bs) as [[c rest]|] eqn:E; [|reflexivity].
+  f_equal. unfold decode_lossy. apply read_char_lossy_progress in E. apply decode_lossy_fuel; lia.
+Qed.
+
+(** On a text that is valid UTF-8 nothing is replaced. *)
+Lemma decode_lossy_all_valid : forall fuel bs cs, decode_all fuel bs = Some cs -> decode_lossy_all fuel bs = cs.
+Proof.
+  induction fuel as [|fuel IH]; intros bs cs H; [discriminate|]. cbn [decode_all decode_lossy_all] in *.
+  destruct (read_char bs) as [| |c rest] eqn:E; try discriminate.
+  - injection H as <-. destruct bs; [reflexivity|]. unfold read_char in E.
+    destruct (upos_of n); try discriminate;
+      (destruct (take_cont _ bs) as [[got rs]|]; [destruct (from_utf8_1 (n :: got))|]; discriminate).
+  - rewrite (read_char_lossy_char _ _ _ E). destruct (decode_all fuel rest) as [cs'|] eqn:D; [|discriminate].
+    injection H as <-. rewrite (IH _ _ D). reflexivity.
+Qed.
+
+Theorem decode_lossy_valid bs cs : decode bs = Some cs -> decode_lossy bs = cs.
+Proof. unfold decode, decode_lossy. apply decode_lossy_all_valid. Qed.
+
+Theorem decode_lossy_encode cs : forallb scalar cs = true -> decode_lossy (encode_all cs) = cs.
+Proof. intros H. apply decode_lossy_valid. apply decode_encode. exact H. Qed.
+
+(** A byte that is not a continuation byte is never swallowed by a broken character in front of it: ASCII bytes
+    (line ends, `;`) behind a truncated sequence are read as themselves. *)
+Lemma take_cont_l_keeps : forall n pre b rest, forallb is_cont pre = true -> (length pre < n)%nat -> is_cont b = false ->
+  take_cont_l n (pre ++ b :: rest) = inr (b :: rest).
+Proof.
+  induction n as [|n IH]; intros pre b rest Hp Hl Hb; [lia|]. cbn [take_cont_l].
+  destruct pre as [|p pre]; cbn [app].
+  - rewrite Hb. reflexivity.
+  - cbn [forallb] in Hp. apply andb_true_iff in Hp as [Hp1 Hp2]. rewrite Hp1.
+    rewrite (IH pre b rest Hp2); [reflexivity|cbn [length] in Hl; lia|exact Hb].
+Qed.
+
+Theorem read_char_lossy_keeps a n pre b rest :
+  cont_due a = Some n -> forallb is_cont pre = true -> (length pre < n)%nat -> is_cont b = false ->
+  read_char_lossy (a :: pre ++ b :: rest) = Some (replacement, b :: rest).
+Proof.
+  intros Ha Hp Hl Hb. unfold read_char_lossy. rewrite Ha. rewrite (take_cont_l_keeps n pre b rest Hp Hl Hb). reflexivity.
+Qed.
+
 (** Non-vacuity: `é`, `→`, a lemon, and a byte sequence the reader panics on. *)
 Lemma ex_utf8 :
   decode [233 - 233 + 195; 169] = Some [233] /\ decode [226; 134; 146] = Some [8594] /\
   decode [240; 159; 141; 139; 10] = Some [127819; 10] /\ decode [255] = None /\ decode [195] = None /\
   decode [237; 160; 128] = None.
+Proof. vm_compute. repeat split. Qed.
+
+(** The same bytes through the debugger's reader: replaced, and the byte behind a truncated character kept. *)
+Lemma ex_utf8_lossy :
+  decode_lossy [255] = [65533] /\ decode_lossy [195] = [65533] /\ decode_lossy [237; 160; 128] = [65533] /\
+  decode_lossy [99; 97; 102; 233; 10; 113] = [99; 97; 102; 65533; 10; 113] /\
+  decode_lossy [226; 134; 59; 195; 169] = [65533; 59; 233] /\ decode_lossy [128; 191; 65] = [65533; 65533; 65] /\
+  decode_lossy [240; 159; 141; 139; 10] = [127819; 10].
 Proof. vm_compute. repeat split. Qed.
